@@ -23,6 +23,12 @@ def opSD (src : Array UInt8) : String :=
   let ok := cbor_stream_decode.ok src 0 n
   s!"{r.1.status} {r.1.read} {r.1.required} {fmtEvents r.2} ok={b2s ok}"
 
+/-- the same call with do-nothing callbacks: only the result struct is observable -/
+def opSDE (src : Array UInt8) : String :=
+  let n := UInt64.ofNat src.size
+  let r := cbor_stream_decode src 0 n
+  s!"{r.1.status} {r.1.read} {r.1.required} ok={b2s (cbor_stream_decode.ok src 0 n)}"
+
 /-- run an encoder into an `n`-byte buffer pre-filled with 0xAA -/
 def opENC (fn : String) (v : Nat) (n : Nat) : Option String :=
   let buf : Array UInt8 := Array.replicate n 0xAA
@@ -222,6 +228,7 @@ def genOp (ws : List String) : Option String :=
   | ["SD", h] => (parseHex h).map opSD
   | ["ENC", fn, v, n] => do opENC fn (← v.toNat?) (← n.toNat?)
   | ["F32ALL", hi] => do some (opF32ALL (← hi.toNat?))
+  | ["SDE", h] => (parseHex h).map opSDE
   | ["UTF8", h] => (parseHex h).map opUTF8
   | ["UTF8ALL", l, h] => do some (opUTF8ALL (← l.toNat?) (← parseHex h))
   | ["MUL", a, b] => do
